@@ -312,7 +312,9 @@ def gen_space_formula(rng, model, space, cfg):
     if cfg.get("ancestor_params") and isinstance(space.parent, rm.RSpace):
         # nested parametrised spaces get their own parameter names, so that cells below them can read the parameters
         # of every enclosing ItemSpace
-        params = [[{pn[0]: "a", pn[1]: "b"}[p], d] for p, d in params]
+        # ... except in some: the nested space re-uses the names of an enclosing one (its own arguments win there)
+        if rng.random() >= cfg.get("p_shared_param", 0.3):
+            params = [[{pn[0]: "a", pn[1]: "b"}[p], d] for p, d in params]
     r = rng.random()
     ret = None
     if r < 0.35:
